@@ -52,11 +52,13 @@ JunkOf(c, name) ==
 Star(segs) == [i \in DOMAIN segs |-> IF segs[i] = ">" THEN "*" ELSE segs[i]]
 SidOfU(u) == Typed(IdxOf(u.type), u.segs)
 
-\* FindInPaths for ONE typed search ('>' already read as '*'): glob, re-resolve, keep the searched type
+\* FindInPaths for ONE typed search ('>' already read as '*'): glob, re-resolve, keep the searched type and - because
+\* the '*' of one field of a file name also matches the separator and the next field - only what fits the search field by field
 PathHits(c, idx, u) ==
   LET pat == ToPath(c, SidOfU([type |-> u.type, segs |-> Star(u.segs)]))
   IN IF pat = <<>> THEN {}
-     ELSE {DVals(idx[p].fields) : p \in {q \in DOMAIN idx : GlobPath(pat, q) /\ idx[q].type = u.type}}
+     ELSE {DVals(idx[p].fields) : p \in {q \in DOMAIN idx : GlobPath(pat, q) /\ idx[q].type = u.type
+                                                            /\ MatchSegs(Star(u.segs), DVals(idx[q].fields))}}
 ListHits(L, u) == {L[i] : i \in {j \in DOMAIN L : MatchSegs(u.segs, L[j])}}
 
 \* the common shape of find(): unfold, collect the hits of every typed search, apply '>' per group
@@ -85,8 +87,11 @@ RECURSIVE ConstHits(_, _, _), FinderFindSid(_, _, _)
 \* star_search of a FindInConstants f for one typed search (a Sid record x, '>' read as '*')
 ConstHits(f, idx, x) ==
   LET root == GetAs(x, f.key) IN
+  \* constants exist only below an existing parent (asked from the parent source, when there is one and a parent)
+  LET ParentOK == f.parent.cls = "" \/ Parent(root) = root \/ Parent(root).type = ""
+                     \/ FinderFindSid(f.parent, idx, Parent(root)) # {} IN
   IF root.type = "" THEN {}
-  ELSE IF ~HasStar(DVals(root.fields)) THEN {DVals(root.fields)}
+  ELSE IF ~HasStar(DVals(root.fields)) THEN (IF ParentOK THEN {DVals(root.fields)} ELSE {})
   ELSE LET par == Parent(root) IN
        IF HasStar(DVals(par.fields)) /\ par # root THEN
           IF f.parent.cls = "" THEN {}      \* the code raises SpilException here; not reachable with a complete configuration
@@ -94,6 +99,7 @@ ConstHits(f, idx, x) ==
                         IF DGet(root.fields, f.key) # "*" THEN {Append(e, DGet(root.fields, f.key))}
                         ELSE {DVals(With1(fr, f.key, f.values[v]).fields) : v \in {w \in DOMAIN f.values : With1(fr, f.key, f.values[w]).type # ""}}
                       : e \in FinderFindSid(f.parent, idx, par)}
+       ELSE IF ~ParentOK THEN {}
        ELSE {DVals(With1(root, f.key, f.values[v]).fields) : v \in {w \in DOMAIN f.values : With1(root, f.key, f.values[w]).type # ""}}
 \* finder.find(sid) for a search Sid record (used for parent sources): unfold its string, route to the finder's own mechanism
 FinderFindSid(f, idx, sid) ==
